@@ -49,6 +49,10 @@ static int hv_get_nb_vp(void) { return hv_nbvp; }
 static sigjmp_buf hv_jmp;
 static volatile int hv_armed;
 static void hv_alarm(int s) { (void)s; if (hv_armed) { hv_armed = 0; siglongjmp(hv_jmp, 1); } }
+/* a crash of the code under test (mutated sources): report it, keep the remaining cases */
+static sigjmp_buf hv_crash_jmp;
+static volatile int hv_crash_ok;
+static void hv_crash(int s) { if (hv_crash_ok) { hv_crash_ok = 0; siglongjmp(hv_crash_jmp, s); } _exit(70); }
 static void hv_arm(int ms) {
     struct itimerval it = { {0, 0}, { ms / 1000, (ms % 1000) * 1000 } };
     hv_armed = 1; setitimer(ITIMER_REAL, &it, NULL);
@@ -354,6 +358,7 @@ int main(int argc, char **argv) {
     parsec_context_t *ctx = parsec_init(1, &pargc, &pargv);
     if (!ctx) { fprintf(stderr, "parsec_init failed\n"); return 3; }
     struct sigaction sa; memset(&sa, 0, sizeof sa); sa.sa_handler = hv_alarm; sigaction(SIGALRM, &sa, NULL);
+    sa.sa_handler = hv_crash; sigaction(SIGSEGV, &sa, NULL); sigaction(SIGBUS, &sa, NULL); sigaction(SIGFPE, &sa, NULL);
     static long v[32], ranks[MAXT], vpids[MAXT];
     while ((l = hc_next(f))) {
         char kind[16]; int off = 0;
@@ -361,8 +366,13 @@ int main(int argc, char **argv) {
         if (sscanf(l, "%15s%n", kind, &off) != 1) { printf("<bad case>\n"); continue; }
         char *p = l + off; int k = hc_ints(&p, v, 32);
         volatile int done = 0;
+        int sig;
+        if ((sig = sigsetjmp(hv_crash_jmp, 1))) {
+            hv_disarm(); printf("<crash signal %d>\n", sig); fflush(stdout); continue;
+        }
+        hv_crash_ok = 1;
         if (strcmp(kind, "vec") && sigsetjmp(hv_jmp, 1)) {
-            printf("<timeout>\n"); fflush(stdout); continue;
+            hv_crash_ok = 0; printf("<timeout>\n"); fflush(stdout); continue;
         }
         if (!strcmp(kind, "bc") && k == 16) { hv_arm(5000); do_bc(v, 0); hv_disarm(); }
         else if (!strcmp(kind, "kv") && k == 16) { hv_arm(5000); do_bc(v, 1); hv_disarm(); }
@@ -374,7 +384,7 @@ int main(int argc, char **argv) {
         }
         else if (!strcmp(kind, "band") && k == 16) { hv_arm(5000); do_band(v); hv_disarm(); }
         else oput("<bad case>");
-        (void)done;
+        (void)done; hv_crash_ok = 0;
         printf("%s\n", ob ? ob : "");
     }
     fflush(stdout);
